@@ -9,6 +9,9 @@
 package appsim
 
 import (
+	"runtime/debug"
+	"runtime"
+	"context"
 	"bytes"
 	"crypto/sha256"
 	"encoding/binary"
@@ -390,6 +393,31 @@ func (s *Sim) Restart() error {
 	return nil
 }
 
+// EngineBarrier makes sure that every engine request the application has written to its RPC connection so
+// far (in particular a newPayload whose caller was cancelled by a rejected ProcessProposal) has been
+// received and recorded by the fake engine: a round trip on the same connection (requests are read in
+// order), then a moment for the handler goroutines started before it to record their call.
+func (s *Sim) EngineBarrier() {
+	c, ok := s.App.EthClient.(*ethrpc.Client)
+	if !ok || c == nil {
+		return
+	}
+	ctx, cancel := context.WithTimeout(context.Background(), 2*time.Second)
+	_, _ = c.GetChainConfig(ctx) // round trip on the same connection: everything written before it has been read
+	cancel()
+	for i := 0; i < 20000; i++ { // until every request read so far has been logged by its handler
+		if s.Engine.Settled() {
+			return
+		}
+		if i < 100 {
+			runtime.Gosched()
+		} else {
+			time.Sleep(100 * time.Microsecond)
+		}
+	}
+	s.Engine.Recalibrate()
+}
+
 func (s *Sim) closeClient() {
 	if s.App != nil {
 		if c, ok := s.App.EthClient.(*ethrpc.Client); ok && c != nil {
@@ -601,6 +629,9 @@ func (s *Sim) Finalize(proposer []byte, txs [][]byte, votes []abci.VoteInfo, evi
 	}
 	defer func() {
 		if r := recover(); r != nil {
+			if os.Getenv("VERIF_DEBUG") != "" {
+				fmt.Fprintf(os.Stderr, "FinalizeBlock panicked: %v\n%s\n", r, debug.Stack())
+			}
 			err = fmt.Errorf("FinalizeBlock panicked: %v", r)
 		}
 		if err != nil {
